@@ -50,8 +50,9 @@ type inst struct {
 }
 
 type sys struct {
-	rig  *limrig.Rig
-	inst []inst
+	rig   *limrig.Rig
+	inst  []inst
+	shape string // identity shape of the instances (idShapes)
 }
 
 func (s *sys) store() string { return s.rig.Dump([]string{up}, []string{"a", "c"}) }
@@ -114,16 +115,42 @@ func (s *sys) stateSum() (int32, int32) {
 	return state, sum
 }
 
-func newSys(k int) *sys {
+func newSys(k int) *sys { return newSysOn(k, "local") }
+
+// identity shapes: what a gateway calls itself is "<--client-id-prefix>-<pid>-<random>"; the prefix is free text
+// (operators put host names, URLs, pod names there), so identities are not always valid label values
+var idShapes = map[string]func(i int) string{
+	"plain": func(i int) string { return fmt.Sprintf("gw%d", i) },
+	"url-prefix": func(i int) string {
+		if i == 1 {
+			return "https://gateway.prod.example.com:6443-4242-x7k2p"
+		}
+		return fmt.Sprintf("gw%d", i)
+	},
+	"long": func(i int) string {
+		if i == 1 {
+			return "kube-gateway-production-eu-central-1-deployment-7d9f8b6c5d-abcde-4242-x7k2p"
+		}
+		return fmt.Sprintf("gw%d", i)
+	},
+}
+
+var idShape = "plain"
+
+func newSysOn(k int, store string) *sys {
 	vsched.InlineGo = true
 	vtime.SetVirtual(time.Unix(1700000000, 0))
 	s := &sys{rig: limrig.New(1, "local")}
+	s.shape = idShape
+	if store == "k8s-writeback" {
+		s.rig = limrig.NewWithSyncPeriod(1, "k8s", 24*time.Hour)
+	}
 	s.rig.Gain(0)
 	if err := s.rig.ApplyCluster(cluster()); err != nil {
 		panic(err)
 	}
 	for i := 0; i < k; i++ {
-		s.inst = append(s.inst, inst{name: fmt.Sprintf("gw%d", i)})
+		s.inst = append(s.inst, inst{name: idShapes[idShape](i)})
 	}
 	return s
 }
@@ -177,12 +204,37 @@ func (s *sys) checkGone(i int) error {
 	return nil
 }
 
-func spec(k int) xstate.Spec {
+func spec(k int) xstate.Spec { return specOn(k, "local") }
+
+// specIDs: the k=2 histories with the second instance carrying an identity of the given shape
+func specIDs(shape string) xstate.Spec {
+	sp := specOn(2, "local")
+	sp.Name = "reclaim-k2-identity-" + shape
+	inner := sp.New
+	sp.New = func() interface{} {
+		idShape = shape
+		defer func() { idShape = "plain" }()
+		return inner()
+	}
+	return sp
+}
+
+// specOn: the same histories over the API-backed store in write-back mode (the limiter binary's default for
+// --limit-store=k8s), with the periodic flush as one more event: conditions that were never flushed exist only in
+// memory, conditions that were are in the API too - the cleanups must reclaim both kinds.
+func specOn(k int, store string) xstate.Spec {
+	name := fmt.Sprintf("reclaim-k%d", k)
+	if store != "local" {
+		name += "-" + store
+	}
 	return xstate.Spec{
-		Name: fmt.Sprintf("reclaim-k%d", k),
-		New:  func() interface{} { return newSys(k) },
+		Name: name,
+		New:  func() interface{} { return newSysOn(k, store) },
 		Events: func(si interface{}) []string {
 			var evs []string
+			if store != "local" {
+				evs = append(evs, "flush")
+			}
 			for i := 0; i < k; i++ {
 				evs = append(evs, fmt.Sprintf("heartbeat %d", i), fmt.Sprintf("report %d", i), fmt.Sprintf("acquire %d 2", i), fmt.Sprintf("acquire %d 0", i), fmt.Sprintf("silence %d", i), fmt.Sprintf("newidentity %d", i))
 			}
@@ -204,6 +256,12 @@ func spec(k int) xstate.Spec {
 				s.inst[i].counted = n
 			}
 			switch f[0] {
+			case "flush":
+				if fl, ok := s.rig.H.Store(0).(interface{ Flush() error }); ok {
+					if err := fl.Flush(); err != nil {
+						return fmt.Errorf("flush-failed: %v", err)
+					}
+				}
 			case "heartbeat":
 				_ = s.rig.L.Heartbeat(s.inst[i].name)
 				s.inst[i].fresh, s.inst[i].known = true, true
@@ -220,7 +278,7 @@ func spec(k int) xstate.Spec {
 				}
 				s.inst = append(s.inst, inst{name: s.inst[i].name, known: s.inst[i].known, quota: s.inst[i].quota, counted: s.inst[i].counted}) // keep the dead one for the oracle
 				s.inst[i].gen++
-				s.inst[i] = inst{name: fmt.Sprintf("gw%d-r%d", i, s.inst[i].gen), gen: s.inst[i].gen}
+				s.inst[i] = inst{name: fmt.Sprintf("%s-r%d", idShapes[s.shape](i), s.inst[i].gen), gen: s.inst[i].gen}
 			case "report":
 				// gateways heartbeat every second and report every few seconds: a reporting instance is a live one
 				_ = s.rig.L.Heartbeat(s.inst[i].name)
@@ -419,7 +477,7 @@ func main() {
 		"an instance that sends a report or an acquire also sends heartbeats (gateways heartbeat every second)",
 		"engine A: ratelimter.go, clientcache.go, store/local/*.go and store/flowcontrol/maxinflight.go instrumented at sync-operation granularity; a request of the dying instance that races the cleanup is followed by the next periodic passes before judging",
 	}
-	specs := []xstate.Spec{spec(2), spec(3)}
+	specs := []xstate.Spec{spec(2), spec(3), specOn(2, "k8s-writeback"), specIDs("url-prefix"), specIDs("long")}
 	if c.ReplayFile() != "" {
 		xstate.ReplayIfAsked(c, specs)
 		xa.ReplayIfAsked(c, harnesses(c, 0))
@@ -427,6 +485,9 @@ func main() {
 	var tasks []ev.Task
 	tasks = append(tasks, xstate.Tasks(c, spec(2), c.Pick(6, 8), 15)...)
 	tasks = append(tasks, xstate.Tasks(c, spec(3), c.Pick(5, 6), 21)...)
+	tasks = append(tasks, xstate.Tasks(c, specOn(2, "k8s-writeback"), c.Pick(5, 7), 16)...)
+	tasks = append(tasks, xstate.Tasks(c, specIDs("url-prefix"), c.Pick(5, 6), 15)...)
+	tasks = append(tasks, xstate.Tasks(c, specIDs("long"), c.Pick(5, 6), 15)...)
 	bounds := []int{0, 1, 2}
 	if c.Thorough() {
 		bounds = []int{0, 1, 2, 3}
